@@ -32,16 +32,16 @@ import (
 )
 
 type backendResult struct {
-	Backend     string         `json:"backend"`
-	FieldArch   string         `json:"field_arch_reported_by_library"`
-	Machines    []machineStats `json:"machines"`
-	Evals       map[string]int `json:"evaluations_per_family"`
-	Classes     map[string]int `json:"outcome_classes"`
-	Findings    []finding      `json:"findings"`
-	RefAsserts  int            `json:"reference_selfcheck_assertions"`
-	Capped      bool           `json:"capped"`
-	WallS       float64        `json:"wall_s"`
-	PhaseS      map[string]float64 `json:"phase_wall_s"`
+	Backend    string             `json:"backend"`
+	FieldArch  string             `json:"field_arch_reported_by_library"`
+	Machines   []machineStats     `json:"machines"`
+	Evals      map[string]int     `json:"evaluations_per_family"`
+	Classes    map[string]int     `json:"outcome_classes"`
+	Findings   []finding          `json:"findings"`
+	RefAsserts int                `json:"reference_selfcheck_assertions"`
+	Capped     bool               `json:"capped"`
+	WallS      float64            `json:"wall_s"`
+	PhaseS     map[string]float64 `json:"phase_wall_s"`
 }
 
 func runBackend(thorough bool, budget time.Duration, only string) *backendResult {
